@@ -186,8 +186,8 @@ Definition wf_metadata (m : s_metadata) : bool :=
   end.
 
 (* ---- postings ---- *)
-(* an account: words of non-separator characters joined by single blanks; the first character
-   is not white space (the parser trims, also U+3000), no tab ; CR LF anywhere *)
+(* an account: words of non-separator characters (no blank, tab, ; CR LF) joined by single
+   blanks; not made of white space only (the parser rejects such a name) *)
 Fixpoint acct_tail (s : str) : bool :=
   match s with
   | [] => true
@@ -199,7 +199,7 @@ Fixpoint acct_tail (s : str) : bool :=
 Definition wf_account (a : str) : bool :=
   match a with
   | [] => false
-  | c :: r => negb (is_white_space c) && negb (is_account_stop c) && acct_tail r
+  | c :: r => negb (is_account_stop c) && acct_tail r && negb (is_empty (trim a))
   end.
 Definition is_clear_mark (c : N) : bool := (c =? 42) || (c =? 33).
 
